@@ -217,6 +217,45 @@ pub fn build(g: &Grammar, thorough: bool) -> Vec<Case9> {
         }
     }
     non_reference_cases(g, &mut out);
+    // every reference position again with every item of every enumeration parameter of the referrer and of its first-level
+    // sub-elements (axis kinds, characteristic types, conversion types ...): which renaming code runs must not depend on them
+    for (label, ns, referrer) in sites.iter().take(n_plain) {
+        let mut variants: Vec<(String, ESpec)> = Vec::new();
+        let enum_params = |tag: &str| -> Vec<(String, Vec<String>)> {
+            let Some(el) = g.get_elem(tag) else { return vec![] };
+            el.items
+                .iter()
+                .filter_map(|it| match it {
+                    vcore::grammar::Item::Single { ty: vcore::grammar::PType::Enum(en), name } => Some((vcore::grammar::make_varname(name), g.enumdef(en).items.iter().filter(|i| i.in_version(5)).map(|i| i.name.clone()).collect())),
+                    _ => None,
+                })
+                .collect()
+        };
+        for (field, items) in enum_params(&referrer.tag) {
+            for it in items {
+                let mut r = referrer.clone();
+                r.set.retain(|(f, _)| f != &field);
+                r.set.push((field.clone(), it.clone()));
+                variants.push((format!("{}={it}", field), r));
+            }
+        }
+        for (ki, kid) in referrer.kids.iter().enumerate() {
+            for (field, items) in enum_params(&kid.tag) {
+                for it in items {
+                    let mut r = referrer.clone();
+                    r.kids[ki].set.retain(|(f, _)| f != &field);
+                    r.kids[ki].set.push((field.clone(), it.clone()));
+                    variants.push((format!("{}.{}={it}", kid.tag, field), r));
+                }
+            }
+        }
+        let tk = kinds_of(*ns)[0];
+        for (vn, r) in variants {
+            let a = vec![e(tk, "X", "c2")];
+            let b = vec![e(tk, "X", "c1"), r];
+            out.push(Case9 { label: format!("{label} -> {tk} X [conflict], referrer new, {vn}"), site: label.to_string(), ta: file_text(g, "A", &a), tb: file_text(g, "B", &b) });
+        }
+    }
     if thorough {
         // pairs of positions in one B: two referrers, two targets with different overlap
         let s2 = referrers("Y");
